@@ -23,12 +23,29 @@ def main(argv=None):
         mod = importlib.import_module(f"vf.checks.{pid.lower()}")
         if a.replay:
             blob = json.load(open(a.replay))
+            from vf import lib
+
+            core._worker_init()  # every exploring process starts with the decoy prelude; so does the replay
             msgs = mod.replay(blob["case"])
             if msgs:
                 print(f"VIOLATION property={pid} replay={a.replay}")
                 for m in msgs:
                     print("  " + m)
                 return core.EXIT_VIOLATION
+            # The case alone satisfies the property in a fresh process.  If it was found inside a unit of exploration,
+            # re-run that whole unit (deterministic: prelude + unit): a violation that only shows up after the unit's
+            # earlier calls means the library's answer depends on the calls made before in the same process.
+            unit = blob.get("unit")
+            if unit is not None and hasattr(mod, "replay_unit"):
+                ctx = core.Ctx(blob.get("tier"), blob.get("seed"), 1)
+                acc = mod.replay_unit(unit, ctx)
+                hits = [v for v in acc.violations if v["key"].split(":")[-3:] == blob["key"].split(":")[-3:] or v["key"] == blob["key"]]
+                if hits:
+                    print(f"VIOLATION property={pid} replay={a.replay}")
+                    print("  reproduces only as part of its exploration unit (the same case alone in a fresh process satisfies the property): "
+                          "the result depends on calls made earlier in the same process")
+                    print("  " + hits[0]["msg"][:600])
+                    return core.EXIT_VIOLATION
             print(f"{pid}: case in {a.replay} satisfies the property on {core.REPO}")
             return core.EXIT_OK
         ctx = core.Ctx(a.tier, a.seed, a.jobs)
